@@ -1,5 +1,5 @@
 """C15 metrics: length rejection (E1) + degenerate-entropy contradiction (E7)."""
-from sa import e1, contradiction
+from sa import e1, contradiction, guards
 from sa.e1 import G, NE, EQ
 from sa.match import Dim
 from sa.mir import AnchorError
@@ -319,3 +319,130 @@ def run(ck, prog):
     _run_pre_progress(ck, prog)
     from sa import progress
     progress.run_rule(ck, prog, set(DIMENSION_FILES))
+
+
+# ------------------------------------------------------------------ F-beta weights, AUC tie scan
+_run_pre_fb2 = run
+
+
+def fbeta_weights(ck, prog):
+    """F-beta = (1 + b^2) p r / (b^2 p + r): in the denominator it is the PRECISION that is weighted by b^2 (definition).
+    Provenance of the two get_score calls: the factor multiplied with beta^2 is Precision::get_score, the bare summand
+    Recall::get_score. (With beta = 1, the only value the unit test uses, the swapped form is indistinguishable.)"""
+    from sa.prov import Resolver, render, subterms
+    rule, inst = "E2-provenance", "F1::get_score: beta^2 multiplies the precision in the denominator"
+    try:
+        b = prog.one(r"^metrics::f1::F1::<T>::get_score$")
+    except AnchorError as e:
+        ck.violation(rule, inst, "F1::get_score", "", expected="anchor exists", found=f"anchor vanished: {e}")
+        return
+    res = Resolver(b)
+    callee = {}
+    for bb, t in b.calls():
+        f = t.get("f")
+        if f and f["path"].endswith("::get_score") and not t["d"]["pr"]:
+            callee[t["d"]["l"]] = f["path"]
+    # find Add(Mul(beta2, X), Y) terms by walking the MIR calls (terms lose the callee's Self type)
+    n = 0
+    for bb, t in b.calls():
+        f = t.get("f")
+        if not (f and f["path"].endswith("Add::add") and len(t["args"]) == 2):
+            continue
+        def src(o):
+            """(is product with beta-derived factor, score local)"""
+            if o["k"] not in ("copy", "move") or o["p"]["pr"]:
+                return None, None
+            l = o["p"]["l"]
+            for d in b.defs.get(l, []):
+                if d.kind == "call" and d.data.get("f") and d.data["f"]["path"].endswith("Mul::mul"):
+                    sc = [a["p"]["l"] for a in d.data["args"] if a["k"] in ("copy", "move") and not a["p"]["pr"] and _score_of(b, a["p"]["l"], callee)]
+                    other = [res.operand(a) for a in d.data["args"]]
+                    if sc and any(any(s[0] == "field" and s[2] == "beta" for s in subterms(x)) for x in other):
+                        return True, _score_of(b, sc[0], callee)
+            sc = _score_of(b, l, callee)
+            return (False, sc) if sc else (None, None)
+        a0, a1 = src(t["args"][0]), src(t["args"][1])
+        pair = [x for x in (a0, a1) if x[1]]
+        if len(pair) != 2 or not any(x[0] for x in pair):
+            continue
+        n += 1
+        weighted = [x[1] for x in pair if x[0]][0]
+        bare = [x[1] for x in pair if not x[0]]
+        if "precision" in weighted.lower() and bare and "recall" in bare[0].lower():
+            ck.ok(rule, inst, b.path, b.where(bb), f"beta^2 * {weighted.split('::')[-2]} + {bare[0].split('::')[-2]}")
+        else:
+            ck.violation(rule, inst, b.path, b.where(bb), ordinal=n, expected="beta^2 * precision + recall",
+                         found=f"beta^2 multiplies `{weighted}`; the bare summand is `{bare[0] if bare else '?'}`")
+    if n == 0:
+        ck.note(f"{inst}: no sum beta^2 * score + score in F1::get_score (F computed from counts): no instance")
+
+
+def _score_of(b, l, callee, depth=0):
+    if l in callee:
+        return callee[l]
+    if depth > 4:
+        return None
+    ds = b.defs.get(l, [])
+    if len(ds) == 1 and ds[0].kind == "assign" and ds[0].data["r"]["k"] == "use" and ds[0].data["r"]["o"]["k"] in ("copy", "move") \
+            and not ds[0].data["r"]["o"]["p"]["pr"]:
+        return _score_of(b, ds[0].data["r"]["o"]["p"]["l"], callee, depth + 1)
+    return None
+
+
+def run(ck, prog):
+    _run_pre_fb2(ck, prog)
+    fbeta_weights(ck, prog)
+
+
+_run_pre_tiescan = run
+
+
+def auc_tie_scan(ck, prog):
+    """Rank averaging over ties: the scan that finds the end of a run of equal scores must be able to include the LAST
+    element (a tie that reaches the highest score, e.g. constant or saturated scores). A scan index that is compared
+    strictly below len - 1 and used to read the score at that same index stops one element short."""
+    from sa.prov import Resolver, render, subterms
+    from sa.match import dim_of
+    from sa.e1 import BodyCtx
+    rule, inst = "E1-gate", "AUC::get_score: the tie scan can reach the last element"
+    try:
+        b = prog.one(r"^metrics::auc::AUC::get_score$")
+    except AnchorError as e:
+        ck.violation(rule, inst, "AUC::get_score", "", expected="anchor exists", found=f"anchor vanished: {e}")
+        return
+    cx = BodyCtx.of(b)
+    res = cx.res
+
+    def is_len_minus_1(t):
+        if t[0] == "field" and t[2] == "0":
+            t = t[1]
+        return t[0] == "bin" and t[1] in ("Sub", "SubWithOverflow") and t[3] == ("int", 1) and bool(dim_of(t[2]))
+    # index variables used to read the sorted scores directly
+    direct = set()
+    for bb, t in b.calls():
+        f = t.get("f")
+        if f and f["path"].endswith(("Index::index",)) and len(t["args"]) == 2:
+            ix = res.operand(t["args"][1])
+            if ix[0] in ("phi", "local"):
+                direct.add(ix[1])
+    n = 0
+    bad = []
+    for c in cx.cmps:
+        for (L, R, rel) in ((c.lhs, c.rhs, c.rel), (c.rhs, c.lhs, guards.FLIP[c.rel])):
+            if L[0] in ("phi", "local") and L[1] in direct and (is_len_minus_1(R) or any(is_len_minus_1(a) for a in (R[2] if R[0] == "phi" else ()))):
+                n += 1
+                if rel == "<":
+                    bad.append((c.where, render(L)[:30], render(R)[:40]))
+    if bad:
+        ck.violation(rule, inst, b.path, bad[0][0], expected="scan bounds that admit index len - 1 (j < len, or j <= len - 1)",
+                     found=f"`{bad[0][1]} < {bad[0][2]}` bounds an index that reads the score at that same index: the last element never joins a tie group")
+    else:
+        ck.ok(rule, inst, b.path, f"{b.loc[0]}:{b.loc[1]}", f"{n} comparison(s) of a direct score index with len - 1, none strict-less")
+
+
+def run(ck, prog):
+    _run_pre_tiescan(ck, prog)
+    auc_tie_scan(ck, prog)
+
+
+EXPLANATION += (' F-beta: beta^2 multiplies the precision in the denominator (provenance of the two sub-scores). AUC: the tie scan can reach the last element (no strict `< len - 1` bound on an index that reads the score at that index).')
